@@ -486,7 +486,7 @@ _ANY_SIDE = "(" + _present("glyphs[a]", "entry") + " or " + _present("glyphs[a]"
 contract(
     MCS,
     name="summary",
-    **MCS_COMMON,
+    **{k: v for k, v in MCS_COMMON.items() if k != "hints"},
     ensures={
         "record-kinds": "all(result[k].kind == 'CursivePosStatement' and result[k].glyphclass.kind == 'GlyphName' for k in range(len(result)))",
         "record-glyph-is-a-given-glyph-with-a-side": "all(any(result[k].glyphclass.glyph == glyphs[a].name and " + _ANY_SIDE + " for a in range(len(glyphs))) for k in range(len(result)))",
@@ -495,10 +495,16 @@ contract(
         "records-allocated": "all(allocated(result[k]) for k in range(len(result)))",
     },
     canaries={"never-empty": "len(result) > 0"},
+    **{"hints": {MCS_PUT: MCS_COMMON["hints"][MCS_PUT] + [
+        _ANY_SIDE.replace("glyphs[a]", "glyph"),
+        "all(" + _ANY_SIDE.replace("glyphs[a]", "glyphs[s0[p]]") + " for p in range(len(s0)))",
+        "all(implies(p == len(K0), " + _ANY_SIDE.replace("glyphs[a]", "glyphs[src[p]]") + ") for p in range(len(src)))",
+        "all(implies(p < len(K0), " + _ANY_SIDE.replace("glyphs[a]", "glyphs[src[p]]") + ") for p in range(len(src)))",
+    ]}},
     loops={
         MCS_LOOP1: Loop(index="i", invariants={
             **_INV1,
-            "side": f"all(" + _ANY_SIDE.replace("glyphs[a]", "glyphs[src[p]]") + f" for p in range(len({_KS})))",
+            "side": f"all(" + _ANY_SIDE.replace("glyphs[a]", "glyphs[src[p]]") + f" for p in range(len(src)))",
             "complete": "all(implies(" + _ANY_SIDE + ", any(src[p] == a for p in range(len(src)))) for a in range(i))",
         }),
         MCS_LOOP2: Loop(index="t", seq="KK", invariants={**_INV2, "len1": _INV1["len"]}),
